@@ -101,11 +101,14 @@ class CreatePredictorBase(ASTNode):
             for key, value in self.using.items():
                 if isinstance(value, Object):
                     args = [
-                        f'{k}={json.dumps(v)}'
+                        f'{k}={v.to_string() if isinstance(v, Identifier) else json.dumps(v)}'
                         for k, v in value.params.items()
                     ]
                     args_str = ', '.join(args)
                     value = f'{value.type}({args_str})'
+                elif isinstance(value, Identifier):
+                    # name = other_name
+                    value = value.to_string()
                 else:
                     value = json.dumps(value)
 
